@@ -38,6 +38,7 @@ def run(ck):
     eval_rule(ck, prog)
     overlap_rule(ck, prog)
     kinds_rule(ck, prog)
+    group_key_rule(ck, prog)
 
 
 def num_steps_rule(ck, prog):
@@ -240,3 +241,44 @@ def kinds_rule(ck, prog):
         ck.ob("KIND", "sequence:one-value-is-single", False,
               "Assertion::sequence stores NO_STRIDE when it is given exactly one value and the given stride otherwise", loc=f0.loc(),
               detail="the stride stored by Assertion::sequence does not depend on the number of values")
+
+
+def group_key_rule(ck, prog):
+    """GROUPKEY: boundary assertions share a divisor exactly when they have the same stride AND the same first step. In
+    `group_constraints` the decision which group an assertion joins — the key of the map the group is looked up in, or the comparisons a
+    hand-written run detection makes — must therefore involve both values of the assertion. A grouping that looks at one of them only
+    (seed C02-M: a new group only when the first step changes) puts a periodic assertion into the group, and under the divisor, of a
+    single assertion with the same first step: it is then enforced on one step."""
+    ck.rule("GROUPKEY", "the group (and divisor) an assertion joins is chosen by both its stride and its first step")
+    f0 = prog.fn_opt("winter_air::air::boundary::group_constraints")
+    if f0 is None:
+        ck.note("GROUPKEY: group_constraints not found; not decided")
+        return
+    ck.saw(f0)
+    f = prog.inl(f0, keep=tuple(x.id for x in prog.fns.values() if x.nname.endswith("BoundaryConstraintGroup::add")))
+    g = flow(f)
+    adds = [(b, t) for b, t in f.calls() if (callee_name(t) or "").endswith("BoundaryConstraintGroup::add")]
+    if not adds:
+        ck.note("GROUPKEY: no call of BoundaryConstraintGroup::add in group_constraints; not decided")
+        return
+
+    def keys_in(w):
+        names = g.callee_names_in(w)
+        flds = {fl for a, fl in g.fields_in(w) if a.endswith("assertions::Assertion")}
+        got = set()
+        for k in ("stride", "first_step"):
+            if k in flds or any(n.endswith("Assertion::" + k) for n in names):
+                got.add(k)
+        return got
+    seen = set()
+    for b, t in adds:
+        seen |= keys_in(g.walk(ops=[t["args"][0]], at=(b, T), through=lambda tt: True))
+    for sb in range(len(f.blocks)):
+        t = f.term(sb)
+        if t["k"] == "switch":
+            seen |= keys_in(g.walk(ops=[t["d"]], at=(sb, T), through=lambda tt: True))
+    ok = seen == {"stride", "first_step"}
+    ck.ob("GROUPKEY", "group_constraints:stride-and-first-step", ok,
+          "group_constraints selects the group of an assertion by its stride and its first step", loc=f0.loc(),
+          detail=None if ok else f"only {sorted(seen) or 'neither value'} take(s) part in the choice of the group: assertions that differ in the other value "
+                                 "share one divisor")
